@@ -12,7 +12,11 @@ import (
 // ---- C11 / C12: CORS ----
 
 var zzOrigins = [][]string{nil, {"*"}, {"o1"}, {"o1", "o2"}, {"o1", "*"}}
-var zzAllowHdrs = [][]string{nil, {"*"}, {"X-A"}, {"X-A", "Content-Type"}, {"X-A", "b-c"}}
+var zzAllowHdrs = [][]string{nil, {"*"}, {"X-A"}, {"X-A", "Content-Type"}, {"X-A", "b-c"}, {"X-Id", "X-A"}}
+
+// requested header lists for the allowed list {"X-Id", "X-A"}: names that differ from an allowed
+// name only by a non-ASCII letter whose lower/upper-case mapping is an ASCII letter
+var zzACRHTraps = []string{"X-\u0130d", "x-a, x-\u0130D", "X-\u0131d", "x-id"}
 var zzExposed = [][]string{nil, {"E1"}, {"E1", "E2"}}
 
 func zzLower(c byte) byte {
@@ -112,9 +116,10 @@ func ZZC11(n int) {
 	r.Handle("/", &hnd{id: 2}, nil, "GET", "DELETE")
 
 	// the request
-	rq := zzv.Choice("rq", 9)
-	method := []string{"GET", "HEAD", "POST", "OPTIONS", "OPTIONS", "GET", "", "OPTIONS", "GET"}[rq]
-	path := []string{"/a", "/a", "/a", "/a", "*", "/zz", "/a", "/", "/"}[rq]
+	// (the empty path selects the root node like "*" does, but is not exempt from preflight handling)
+	rq := zzv.Choice("rq", 10)
+	method := []string{"GET", "HEAD", "POST", "OPTIONS", "OPTIONS", "GET", "", "OPTIONS", "GET", "OPTIONS"}[rq]
+	path := []string{"/a", "/a", "/a", "/a", "*", "/zz", "/a", "/", "/", ""}[rq]
 	req := zzReq(method, path)
 	hasOrigin := zzv.Choice("hasorigin", 2) == 1
 	origin := ""
@@ -154,6 +159,10 @@ func ZZC11(n int) {
 	case 4:
 		acrh, hasACRH = "x-a ,CONTENT-TYPE", true
 	case 5:
+		if n/100%10 == 5 {
+			acrh, hasACRH = zzACRHTraps[zzv.Choice("trap", len(zzACRHTraps))], true
+			break
+		}
 		acrh, hasACRH = zzv.Bytes("acrh", n%100), true
 		for i := 0; i < len(acrh); i++ {
 			zzv.Assume(acrh[i] == '\t' || (acrh[i] >= 0x20 && acrh[i] <= 0x7e))
@@ -174,7 +183,7 @@ func ZZC11(n int) {
 	switch path {
 	case "/a", "/":
 		served = method == "GET" || method == "HEAD" || method == "OPTIONS"
-	case "*":
+	case "*", "":
 		served = method == "OPTIONS"
 	}
 	deny := len(origins) == 0
@@ -232,8 +241,8 @@ func ZZC11(n int) {
 	}
 
 	// ---- C12: exactly what was configured, to allowed origins ----
-	if mode == 1 || deny || !served {
-		return
+	if mode == 1 || deny || !served || path == "" {
+		return // (the empty path reaches the root node, whose Allow set is that of "OPTIONS *": C11 only)
 	}
 	grantOrigin := anyOrigin || originListed
 	isPre := preflight && methodOK && (anyHeaders || !hasACRH || (allListed && wellFormed))
